@@ -1,6 +1,6 @@
 #!/bin/bash
 # Build everything the checks need from $VERIF_REPO (default /repo). Idempotent; cargo no-ops when fresh.
-# usage: build.sh [shim] [cli] [cli-dev] [cli-vg] [vh] [vh-debug]   (default: shim cli vh)
+# usage: build.sh [shim] [cli] [cli-dev] [cli-vg] [cli-asan] [vh] [vh-debug]   (default: shim cli vh)
 set -euo pipefail
 V="$(cd "$(dirname "$0")/.." && pwd)"
 REPO="${VERIF_REPO:-/repo}"
@@ -26,6 +26,11 @@ shim)
 cli)
   (cd "$REPO" && CARGO_TARGET_DIR="$T/cli$SFX" cargo build --release --features cli --offline -q 2> "$T/.cli-build.log") || { grep -E "^error" -A12 "$T/.cli-build.log" | head -60 >&2; echo "build.sh: copia CLI does not compile" >&2; exit 1; }
   test -x "$T/cli$SFX/release/copia" ;;
+cli-asan)
+  # AddressSanitizer build of the CLI (nightly, -Zsanitizer=address; no build-std needed): used by the
+  # thorough-tier ASan stages, which re-run a process-level workload against this binary
+  (cd "$REPO" && RUSTFLAGS="-Zsanitizer=address -Cforce-frame-pointers=yes" CARGO_TARGET_DIR="$T/cli-asan$SFX" cargo +nightly build --release --features cli --target x86_64-unknown-linux-gnu --offline -q 2> "$T/.cliasan-build.log") || { grep -E "^error" -A12 "$T/.cliasan-build.log" | head -60 >&2; echo "build.sh: copia CLI (ASan build) does not compile" >&2; exit 1; }
+  test -x "$T/cli-asan$SFX/x86_64-unknown-linux-gnu/release/copia" ;;
 cli-vg)
   # valgrind 3.19 cannot execute what -C target-cpu=native (the repository's .cargo/config.toml) emits on this
   # machine: the memcheck stages use a second release build of the same sources for the baseline x86-64-v2 ISA
